@@ -2,6 +2,7 @@ package main
 
 import (
 	"fmt"
+	"go/token"
 	"go/types"
 	"sort"
 	"strings"
@@ -159,6 +160,12 @@ func runC05(p *Prog, r *Report, tier string) {
 		num, den := p.nf(b.X), p.nf(b.Y)
 		inEnd := `GetUnsigned32Value(elem($incomingRecord, "flowEndSeconds"))`
 		okNum := strings.HasPrefix(num, "(8 * ") && strings.Contains(num, "("+IN+" - GetUnsigned64Value(elem($existingRecord, AggregationProcess.aggregateElements.Aggregated")
+		// exact integer arithmetic: the quotient is computed on uint64 operands (a float64 detour loses the low bits of
+		// large counters, so the result is no longer 8 x growth / interval)
+		if bt, ok := b.X.Type().Underlying().(*types.Basic); !ok || bt.Kind() != types.Uint64 {
+			okNum = false
+			num += " [computed in " + b.X.Type().String() + ", not uint64]"
+		}
 		okDen := strings.HasPrefix(den, "conv(") && strings.Contains(den, "("+inEnd+" - ") && strings.Contains(den, "updateFlowEndSecondsFromNodes(")
 		// division guarded: the diff is computed on the edge incomingEnd > prevEnd
 		guarded := false
@@ -268,6 +275,42 @@ func runC05(p *Prog, r *Report, tier string) {
 	if nTS == 0 {
 		r.Infof("aggregateRecords has no tcpState case; nothing to check for it")
 	}
+	// ---- a record is applied completely or rejected for its shape: once the existing record has been touched, an error
+	// return is only taken for a MISSING element (the !exists edge of a lookup). An error return that depends on the
+	// record's content (a malformed string, ...) abandons the record half-applied - end times advanced, deltas not added -
+	// and, since the caller stops at the first error, drops the records of other flows that follow in the same message.
+	var firstMut ssa.Instruction
+	eachInstr(agg, func(in ssa.Instruction) {
+		if firstMut != nil {
+			return
+		}
+		if c := callOf(in); c != nil {
+			if c.IsInvoke() && strings.HasPrefix(c.Method.Name(), "Set") && isValueAccessor(c.Method.Name()) {
+				firstMut = in
+			}
+			if c.StaticCallee() != nil && c.StaticCallee().Name() == "updateFlowEndSecondsFromNodes" {
+				firstMut = in
+			}
+		}
+	})
+	nErr := 0
+	eachInstr(agg, func(in ssa.Instruction) {
+		rt, ok := in.(*ssa.Return)
+		if !ok || !isErrorReturn(rt) {
+			return
+		}
+		nErr++
+		miss := false
+		for _, f := range p.boolFacts(in.Block()) {
+			if strings.HasPrefix(f, "!exists(") {
+				miss = true
+			}
+		}
+		// innermost guard must be the miss itself: the last If on the way is a test of an `exist` flag
+		r.Check(miss && innermostGuardIsExists(in.Block()), "R-VALUE.atomic-step", fmt.Sprintf("aggregateRecords: error return #%d", nErr), p.instrPos(in), "taken only because an element is missing from the record",
+			"an error return in the middle of the aggregation step depends on something other than a missing element: the record is left half-applied (end time advanced, counters not) and later records of the same message are dropped by the caller", true)
+	})
+	_ = firstMut
 	// ---- success returns: only "nothing configured", "not the latest record from its node" and the end of the function
 	nRet := 0
 	eachInstr(agg, func(in ssa.Instruction) {
@@ -342,6 +385,8 @@ func runC05(p *Prog, r *Report, tier string) {
 	// ---- base: seeds
 	checkSeeds(p, r)
 	checkNodeFlags(p, r)
+	// no delta is lost: every accepted record is applied (C07's single-success-exit rule, imported)
+	checkSingleSuccessExit(p, r, "R-VALUE.every-record-applied")
 	// ---- reset
 	checkReset(p, r)
 	// ---- key
@@ -872,4 +917,26 @@ func checkNodeFlags(p *Prog, r *Report) {
 	if n < 9 {
 		r.Undecided("R-VALUE.node-flags", "anchor: calls taking (fillSrcStats, fillDstStats)", p.pos(f.Pos()), fmt.Sprintf("expected 3 aggregate calls and 6 seed calls, found %d", n))
 	}
+}
+
+// innermostGuardIsExists: the branch that leads directly into block b tests the boolean result of a
+// GetInfoElementWithValue lookup (the `exist` flag).
+func innermostGuardIsExists(b *ssa.BasicBlock) bool {
+	for len(b.Preds) == 1 {
+		pr := b.Preds[0]
+		if i := ifOf(pr); i != nil {
+			cond := i.Cond
+			if u, ok := cond.(*ssa.UnOp); ok && u.Op == token.NOT {
+				cond = u.X
+			}
+			if ex, ok := cond.(*ssa.Extract); ok {
+				if c, ok := ex.Tuple.(*ssa.Call); ok && c.Call.IsInvoke() && c.Call.Method.Name() == "GetInfoElementWithValue" {
+					return true
+				}
+			}
+			return false
+		}
+		b = pr
+	}
+	return false
 }
